@@ -433,6 +433,10 @@ func TestC11(t *testing.T) {
 	if t.Failed() {
 		return
 	}
+	runC11Persister(t)
+	if t.Failed() {
+		return
+	}
 	// exhaustive: every session and key up to a length over a small hostile alphabet,
 	// both session-scoped types, written then read in one store
 	maxLen := 2
